@@ -176,7 +176,7 @@ def configs(ctx: Ctx, n: int) -> list[dict]:
         reply = "seed" if rng.random() < 0.6 else "pubkey"
         out.append({"op": op, "now": now, "named": named, "hash": HASHES[i % 4], "secret": SECRETS[(i // 4) % 3], "reply": reply,
                     "policy": "later" if rng.random() < 0.4 else "requested", "l2_at_31": "absent" if rng.random() < 0.3 else "present",
-                    "dc_sign": rng.random() < 0.7, "proto": "negotiate" if i % 5 == 0 else "ntlm", "sid": sid_with(1 + i % 15, rng),
+                    "dc_sign": rng.random() < 0.7, "proto": "negotiate" if i % 5 == 0 else "ntlm", "sid": ("S-1-1-0" if i % 29 == 11 else sid_with(1 + i % 15, rng)),
                     "domain": "d" * (i % 9) + ".test", "forest": "f" * ((i // 9) % 9) + ".test", "port": rng.choice([49664, 1025, 65535]),
                     "name_rk": rng.random() < 0.5, "towers": i % 3, "dns": i % 4 == 1, "dc_error": i % 17 == 5,
                     "alloc": ("padded", "unpadded", "zero")[(i // 2) % 3]})
